@@ -704,3 +704,246 @@ Proof.
   - eexists _, _, _. split; [vm_compute; reflexivity|]. repeat split.
   - eexists _, _, _. split; [vm_compute; reflexivity|]. repeat split.
 Qed.
+
+(** * C15, one request alone: the placeholder flows from item to item *)
+
+Definition out_heap {R} (o : outcome R) : heap :=
+  match o with Done _ h _ => h | Panicked _ h _ => h end.
+
+Lemma out_log_prepend {R} pre (o : outcome R) : out_log (prepend pre o) = pre ++ out_log o.
+Proof. destruct o; reflexivity. Qed.
+Lemma out_heap_prepend {R} pre (o : outcome R) : out_heap (prepend pre o) = out_heap o.
+Proof. destruct o; reflexivity. Qed.
+
+Lemma str_eqb_refl s : str_eqb s s = true.
+Proof. induction s as [|x s IH]; cbn [str_eqb]; [reflexivity|]. rewrite Z.eqb_refl. exact IH. Qed.
+
+Lemma str_eqb_eq a : forall b, str_eqb a b = true -> a = b.
+Proof.
+  induction a as [|x a IH]; intros [|y b] H; cbn [str_eqb] in H; try discriminate; [reflexivity|].
+  apply andb_prop in H. destruct H as [H1 H2]. apply Z.eqb_eq in H1. apply IH in H2. congruence.
+Qed.
+
+Lemma length_upd h : forall l v, length (upd h l v) = length h.
+Proof. induction h as [|x h IH]; intros [|l] v; cbn [upd length]; try reflexivity. rewrite IH. reflexivity. Qed.
+
+Lemma cell_upd_same h : forall l v, (l < length h)%nat -> cell (upd h l v) l = v.
+Proof.
+  unfold cell. induction h as [|x h IH]; intros [|l] v Hl; cbn [length] in Hl; try lia; cbn [upd nth].
+  - reflexivity.
+  - apply IH. lia.
+Qed.
+
+Lemma cell_upd_other h : forall l l' v, l <> l' -> cell (upd h l v) l' = cell h l'.
+Proof.
+  unfold cell. induction h as [|x h IH]; intros [|l] [|l'] v Hne; cbn [upd nth]; try reflexivity; try congruence.
+  apply IH. congruence.
+Qed.
+
+Lemma cell_app_lt h t l : (l < length h)%nat -> cell (h ++ t) l = cell h l.
+Proof. intros Hl. unfold cell. apply app_nth1. exact Hl. Qed.
+
+Lemma cell_app_new h : cell (h ++ [[]]) (length h) = [].
+Proof. unfold cell. rewrite app_nth2; [|lia]. rewrite Nat.sub_diag. reflexivity. Qed.
+
+Lemma flow_app a : forall v b,
+  flow v (a ++ b) = match flow v a with Some v' => flow v' b | None => None end.
+Proof.
+  induction a as [|e a IH]; intros v b; [reflexivity|].
+  cbn [app]. destruct e as [i|i hc x|i hc q r|i hc s|i hc|i o|]; cbn [flow].
+  - apply IH.
+  - destruct hc.
+    + destruct (str_eqb x v); [apply IH|reflexivity].
+    + destruct (str_is_empty x); [apply IH|reflexivity].
+  - destruct r as [a0|], (if negb (str_is_empty q) then Some q else _) as [b0|]; try reflexivity.
+    + destruct (str_eqb a0 b0); [apply IH|reflexivity].
+    + apply IH.
+  - destruct hc; apply IH.
+  - destruct hc; apply IH.
+  - apply IH.
+  - apply IH.
+Qed.
+
+(* [tracks l p]: run on a heap where cell [l] exists, [p]'s log is a consistent account of what
+   happens to that cell *)
+Definition tracks {R} (l : nat) (p : prog R) : Prop :=
+  forall h, (l < length h)%nat ->
+    flow (cell h l) (out_log (run p h)) = Some (cell (out_heap (run p h)) l) /\
+    length (out_heap (run p h)) = length h.
+
+Lemma tracks_ret {R} l (r : R) : tracks l (Ret r).
+Proof. intros h Hl. split; reflexivity. Qed.
+
+Lemma tracks_throw {R} l pv : tracks l (@Throw R pv).
+Proof. intros h Hl. split; reflexivity. Qed.
+
+Lemma tracks_bind {A B} l (p : prog A) (f : A -> prog B) :
+  tracks l p -> (forall a, tracks l (f a)) -> tracks l (pbind p f).
+Proof.
+  intros Hp Hf h Hl. rewrite run_bind. specialize (Hp h Hl).
+  destruct (run p h) as [a h1 log1|pv h1 log1]; cbn [out_log out_heap] in Hp; destruct Hp as [Hp1 Hp2].
+  - rewrite out_log_prepend, out_heap_prepend, flow_app, Hp1.
+    assert (Hl1 : (l < length h1)%nat) by lia.
+    destruct (Hf a h1 Hl1) as [Hf1 Hf2]. split; [exact Hf1|lia].
+  - split; assumption.
+Qed.
+
+Lemma tracks_try_catch {A} l (p : prog A) hd :
+  tracks l p -> (forall pv, tracks l (hd pv)) -> tracks l (try_catch p hd).
+Proof.
+  intros Hp Hh h Hl. rewrite run_try_catch. specialize (Hp h Hl).
+  destruct (run p h) as [a h1 log1|pv h1 log1]; cbn [out_log out_heap] in Hp; destruct Hp as [Hp1 Hp2].
+  - split; assumption.
+  - rewrite out_log_prepend, out_heap_prepend, flow_app, Hp1.
+    assert (Hl1 : (l < length h1)%nat) by lia.
+    destruct (Hh pv h1 Hl1) as [Hf1 Hf2]. split; [exact Hf1|lia].
+Qed.
+
+Definition neutral (e : event) : Prop :=
+  match e with EvCall _ | EvRet _ _ | EvSet _ HBare _ | EvClear _ HBare => True | _ => False end.
+
+Lemma tracks_emit {R} l e (k : prog R) : neutral e -> tracks l k -> tracks l (Emit e k).
+Proof.
+  intros Hn Hk h Hl. cbn [run]. rewrite out_log_prepend, out_heap_prepend. specialize (Hk h Hl).
+  destruct e as [i|i hc x|i hc q r|i hc s|i hc|i o|]; cbn in Hn; try contradiction;
+    try (destruct hc; try contradiction); cbn [app flow]; exact Hk.
+Qed.
+
+Section Tracks.
+  Variable cfg : config.
+  Variable c : ctx.
+  Variable l : nat.
+  Hypothesis Hc : ctx_batch c = Some l.
+
+  Lemma ctx_batch_resolve hc :
+    ctx_batch (resolve c hc) = match hc with HOwn => Some l | HBare => None end.
+  Proof. destruct hc; [exact Hc|reflexivity]. Qed.
+
+  Lemma tracks_hprog idx : forall hp, tracks l (run_hprog c idx hp).
+  Proof.
+    induction hp as [o|hc k IH|hc q k IH|hc s k IH|hc k IH]; cbn [run_hprog].
+    - apply tracks_emit; [exact I|]. destruct o; [apply tracks_ret|apply tracks_ret|apply tracks_throw].
+    - intros h Hl. rewrite run_bind, run_id_placeholder, ctx_batch_resolve. cbn [prepend app run].
+      rewrite prepend_nil, out_log_prepend, out_heap_prepend. cbn [app flow].
+      destruct hc.
+      + rewrite str_eqb_refl. apply IH. exact Hl.
+      + cbn [str_is_empty]. apply IH. exact Hl.
+    - intros h Hl. rewrite run_bind, run_get_or, ctx_batch_resolve. cbn [prepend app run].
+      rewrite prepend_nil, out_log_prepend, out_heap_prepend. cbn [app flow].
+      assert (Hseen : match hc with HOwn => cell h l | HBare => [] end =
+                      match match hc with HOwn => Some l | HBare => None end with Some l0 => cell h l0 | None => [] end)
+        by (destruct hc; reflexivity).
+      rewrite <- Hseen.
+      destruct (negb (str_is_empty q)).
+      + rewrite str_eqb_refl. apply IH. exact Hl.
+      + cbv zeta. destruct (negb (str_is_empty (match hc with HOwn => cell h l | HBare => [] end))).
+        * rewrite str_eqb_refl. apply IH. exact Hl.
+        * apply IH. exact Hl.
+    - intros h Hl. rewrite run_bind, run_set, ctx_batch_resolve. destruct hc.
+      + cbn [prepend app run]. rewrite prepend_nil, out_log_prepend, out_heap_prepend. cbn [app flow].
+        assert (Hl' : (l < length (upd h l s))%nat) by (rewrite length_upd; exact Hl).
+        destruct (IH (upd h l s) Hl') as [H1 H2]. rewrite cell_upd_same in H1 by exact Hl.
+        split; [exact H1|]. rewrite H2. apply length_upd.
+      + cbn. split; reflexivity.
+    - intros h Hl. rewrite run_bind, run_clear, ctx_batch_resolve. cbn [prepend app run].
+      rewrite prepend_nil, out_log_prepend, out_heap_prepend. cbn [app flow]. destruct hc.
+      + assert (Hl' : (l < length (upd h l []))%nat) by (rewrite length_upd; exact Hl).
+        destruct (IH (upd h l []) Hl') as [H1 H2]. rewrite cell_upd_same in H1 by exact Hl.
+        split; [exact H1|]. rewrite H2. apply length_upd.
+      + apply IH. exact Hl.
+  Qed.
+
+  Lemma tracks_hbie bi err : tracks l (handle_batch_item_error c bi err).
+  Proof.
+    destruct err as [e|]; [|apply tracks_ret].
+    intros h Hl. rewrite run_hbie_some, Hc. cbn [out_log out_heap flow].
+    rewrite cell_upd_same by exact Hl. split; [reflexivity|apply length_upd].
+  Qed.
+
+  Lemma tracks_call idx bi : tracks l (call_handler cfg c idx bi).
+  Proof. unfold call_handler. apply tracks_emit; [exact I|apply tracks_hprog]. Qed.
+
+  Lemma tracks_item idx bi : tracks l (execute_item_mw cfg c idx bi).
+  Proof.
+    unfold execute_item_mw. apply tracks_bind; [|intros x; apply tracks_hbie].
+    unfold execute_item. apply tracks_try_catch.
+    - destruct (i_ext bi) as [[|]|]; [apply tracks_ret| |];
+        (destruct (i_pl bi); destruct (routed cfg (i_op bi)); try apply tracks_ret;
+         (apply tracks_bind; [apply tracks_call|intros x; apply tracks_ret])).
+    - intros pv. apply tracks_bind; [apply tracks_hbie|intros r; apply tracks_ret].
+  Qed.
+
+  Lemma tracks_loop eco : forall items i st, tracks l (item_loop cfg c eco i st items).
+  Proof.
+    induction items as [|bi rest IH]; intros i st; cbn [item_loop]; [apply tracks_ret|].
+    destruct st.
+    - apply tracks_bind; [apply IH|intros rs; apply tracks_ret].
+    - apply tracks_bind; [apply tracks_item|intros r].
+      apply tracks_bind; [apply IH|intros rs; apply tracks_ret].
+  Qed.
+
+  Lemma tracks_inner req : tracks l (handle_request_inner cfg c req).
+  Proof.
+    unfold handle_request_inner.
+    destruct (negb (vmem _ _)); [apply tracks_ret|].
+    destruct (_ && _); [apply tracks_ret|].
+    destruct (negb (_ =? _)); [apply tracks_ret|].
+    apply tracks_bind; [apply tracks_loop|intros rs; apply tracks_ret].
+  Qed.
+
+  Lemma tracks_message_error req e : tracks l (handle_message_error c req e).
+  Proof. unfold handle_message_error. apply tracks_bind; [apply tracks_hbie|intros bi; apply tracks_ret]. Qed.
+End Tracks.
+
+(* C15, sequential half: whatever the shared heap holds and whatever context the request
+   arrives in, the log of a request is consistent with a placeholder that starts empty *)
+Theorem placeholder_flow cfg parent req h :
+  exists v, flow [] (out_log (run (handle_request cfg parent req) h)) = Some v.
+Proof.
+  destruct req as [r|]; [|exists []; reflexivity].
+  unfold handle_request, new_batch_context. cbn [pbind run].
+  set (c := CBatch (length h) :: parent).
+  assert (Hc : ctx_batch c = Some (length h)) by reflexivity.
+  assert (Ht : tracks (length h)
+                 (dop x <- handle_request_inner cfg c r ;;
+                  match x with inl resp => Ret resp | inr e => handle_message_error c (Some r) e end)).
+  { apply tracks_bind; [apply tracks_inner; exact Hc|].
+    intros [resp|e]; [apply tracks_ret|apply tracks_message_error; exact Hc]. }
+  assert (Hl : (length h < length (h ++ [[]]))%nat) by (rewrite app_length; cbn; lia).
+  destruct (Ht (h ++ [[]]) Hl) as [H1 _]. rewrite cell_app_new in H1.
+  eexists. exact H1.
+Qed.
+
+(* a read that no SetIdPlaceholder of the same request precedes returns the empty string *)
+Definition is_set (e : event) : bool := match e with EvSet _ HOwn _ => true | _ => false end.
+
+Lemma flow_no_set pre : forall v v', flow v pre = Some v' -> forallb (fun e => negb (is_set e)) pre = true -> v = [] -> v' = [].
+Proof.
+  induction pre as [|e pre IH]; intros v v' Hf Hns Hv; cbn [flow] in Hf.
+  - congruence.
+  - cbn [forallb] in Hns. apply andb_prop in Hns. destruct Hns as [He Hns].
+    destruct e as [i|i hc x|i hc q r|i hc s|i hc|i o|]; cbn [flow] in Hf.
+    + eapply IH; eassumption.
+    + destruct hc; [destruct (str_eqb x v)|destruct (str_is_empty x)]; try discriminate; eapply IH; eassumption.
+    + destruct r as [a0|], (if negb (str_is_empty q) then Some q else _) as [b0|]; try discriminate.
+      * destruct (str_eqb a0 b0); [|discriminate]. eapply IH; eassumption.
+      * eapply IH; eassumption.
+    + destruct hc; [discriminate He|]. eapply IH; eassumption.
+    + destruct hc; eapply IH; try eassumption. reflexivity.
+    + eapply IH; eassumption.
+    + eapply IH; try eassumption. reflexivity.
+Qed.
+
+Theorem placeholder_fresh cfg parent req h pre i hc v post :
+  out_log (run (handle_request cfg parent req) h) = pre ++ EvRead i hc v :: post ->
+  forallb (fun e => negb (is_set e)) pre = true ->
+  v = [].
+Proof.
+  intros Hlog Hns. destruct (placeholder_flow cfg parent req h) as [vf Hf].
+  rewrite Hlog, flow_app in Hf.
+  destruct (flow [] pre) as [v'|] eqn:Hpre; [|discriminate].
+  assert (Hv' : v' = []) by (eapply flow_no_set; [exact Hpre|exact Hns|reflexivity]).
+  subst v'. cbn [flow] in Hf. destruct hc.
+  - destruct (str_eqb v []) eqn:E; [|discriminate]. apply str_eqb_eq in E. exact E.
+  - destruct v; [reflexivity|discriminate].
+Qed.
